@@ -18,6 +18,7 @@ pub mod c13;
 pub mod c14;
 pub mod c15;
 pub mod c16;
+pub mod c17;
 pub mod c19;
 pub mod c14b;
 pub mod c11d;
@@ -63,6 +64,7 @@ pub fn run(id: &str, tier: Tier) -> i32 {
         "C14" => c14::run(tier),
         "C15" => c15::run(tier),
         "C16" => c16::run(tier),
+        "C17" => c17::run(tier),
         "C19" => c19::run(tier),
         _ => {
             eprintln!("MACHINERY: no check for {id}");
@@ -90,6 +92,7 @@ pub fn replay(id: &str, file: &serde_json::Value) -> i32 {
         "C14" => c14::replay,
         "C15" => c15::replay,
         "C16" => c16::replay,
+        "C17" => c17::replay,
         "C19" => c19::replay,
         _ => {
             eprintln!("MACHINERY: no replay for {id}");
